@@ -51,6 +51,7 @@ extern vp_iface  vp_ifaces[VP_MAX_IFACE];
 extern vp_global vp_glob;
 extern uint64_t  vp_clock_ms;
 extern uint64_t  vp_clock_jump;
+extern unsigned  vp_clock_jump_after;
 extern uint8_t   vp_poison;
 #ifndef VP_TL
 #define VP_TL            /* -DVP_TL=__thread: every mutable object of the port becomes thread-local (steady-state TSan run) */
